@@ -172,11 +172,14 @@ Scope(lits, G0, visible) ==
                                           /\ TVars(l.tgt) \subseteq inner[i].G]
 
 HeadVars(c) == ArgsVars(c.head.args)
-Grounded(c) ==
+\* ok: the clause is grounded; cyc: it is not, because two aggregates wait for each other's result
+GroundInfo(c) ==
     LET sc == Scope(c.body, {}, HeadVars(c))
-    IN /\ sc.ok
-       /\ HeadVars(c) \subseteq sc.G
-       /\ \A j \in 1..Len(c.head.args) : RecsOK(c.head.args[j], sc.G, FALSE)
+    IN [ok  |-> /\ sc.ok
+                /\ HeadVars(c) \subseteq sc.G
+                /\ \A j \in 1..Len(c.head.args) : RecsOK(c.head.args[j], sc.G, FALSE),
+        cyc |-> sc.cyc]
+Grounded(c) == GroundInfo(c).ok
 
 \* ===========================================================================
 \*  3. types (unambiguous cases)
@@ -300,8 +303,9 @@ WellTyped(P, c) ==
 \* ===========================================================================
 AllGrounded(P) == \A i \in 1..Len(P.clauses) : Grounded(P.clauses[i])
 AllTyped(P)    == \A i \in 1..Len(P.clauses) : WellTyped(P, P.clauses[i])
-\* some clause is ungrounded because two aggregates feed each other (souffle: "Mutually dependent aggregate")
-AggCycle(P)    == \E i \in 1..Len(P.clauses) : Scope(P.clauses[i].body, {}, HeadVars(P.clauses[i])).cyc
-Why(P) == [stratifiable |-> Stratifiable(P), grounded |-> AllGrounded(P), typed |-> AllTyped(P), aggcycle |-> AggCycle(P)]
+\* aggcycle: some clause is ungrounded because two aggregates feed each other (souffle: "Mutually dependent aggregate")
+Why(P) == LET gi == [i \in 1..Len(P.clauses) |-> GroundInfo(P.clauses[i])] IN
+          [stratifiable |-> Stratifiable(P), grounded |-> \A i \in 1..Len(P.clauses) : gi[i].ok, typed |-> AllTyped(P),
+           aggcycle |-> \E i \in 1..Len(P.clauses) : gi[i].cyc]
 Verdict(P) == LET w == Why(P) IN IF w.stratifiable /\ w.grounded /\ w.typed THEN "accept" ELSE "reject"
 =============================================================================
